@@ -159,6 +159,16 @@ reg("C06", "exploration",
     "property-based testing (Hypothesis) with differential (metamorphic) oracle over configuration pairs",
     "DESIGN.md section 4 C06")
 
+reg("C12", "exploration",
+    "Each Hypothesis-generated scenario is run as baseline and in a drawn equivalent representation: annotation as "
+    ".gtf / .gtf.gz / pre-built .db, --complete_genedb or inferred, fresh / reused / --clean_start conversion cache "
+    "(all outputs must be identical modulo header), or the same records partitioned into 2-4 BAM files (read "
+    "assignments, corrected reads and ungrouped reference-based tables equal as multisets).",
+    "Pre-built databases are made with the repository's own src/gtf2db.py; BAM partition compares only the files the "
+    "statement lists.",
+    "property-based testing (Hypothesis) with differential (metamorphic) oracle over input representations",
+    "DESIGN.md section 4 C12")
+
 NOT_YET = "check not built yet in this session (see DESIGN.md section 6a build order)"
 
 
